@@ -120,7 +120,18 @@ func (l *listener) Serve() error {
 		}
 	}
 
+	l.mu.Lock()
 	l.ln = ln
+	l.mu.Unlock()
+	// Stop or Drain may have been called while binding, they couldn't see the
+	// listener and therefore couldn't close it.
+	select {
+	case <-l.quit:
+		ln.Close()
+	case <-l.drain:
+		ln.Close()
+	default:
+	}
 	l.Infof("start serving at %s", ln.Addr().String())
 	l.serve()
 	l.Infof("stop serving at %s, waiting all conns done", ln.Addr().String())
@@ -260,8 +271,11 @@ func (l *listener) Drain() error {
 	l.drainOnce.Do(func() {
 		close(l.drain)
 	})
-	if l.ln != nil {
-		l.ln.Close()
+	l.mu.Lock()
+	ln := l.ln
+	l.mu.Unlock()
+	if ln != nil {
+		ln.Close()
 	}
 	return nil
 }
@@ -274,10 +288,11 @@ func (l *listener) Stop() error {
 	l.mu.Lock()
 	conns := l.conns
 	l.conns = nil
+	ln := l.ln
 	l.mu.Unlock()
 
-	if l.ln != nil {
-		l.ln.Close()
+	if ln != nil {
+		ln.Close()
 	}
 	for conn := range conns {
 		conn.Close()
